@@ -192,7 +192,7 @@ flenp_buffer_encode_n(const LengthPrefixKind k,
         return -EINVAL;
     }
     const int rc = flenp_memory_encode(k, lpb, b->data + b->offset, n);
-    b->offset += rest;
+    b->offset += n;
     return rc;
 }
 
